@@ -191,7 +191,7 @@ DEFAULT_LAYOUT = {"doc_indent": "", "cmd_indent": "", "arg_sep": " ", "after_ope
                   "between": "\n", "doc_cmd": "\n", "eol": "\n", "head": "", "tail": "\n", "leader": True}
 
 
-def render_doc(lines, module_name, indent="", leader=True, module_gap=" "):
+def render_doc(lines, module_name, indent="", leader=True, module_gap=" ", inline_closer=False):
     first = "#[[[" if module_name is None else ("#[[[" + module_gap + "@module" + (" " + module_name if module_name else ""))
     body = []
     for l in lines:
@@ -199,6 +199,9 @@ def render_doc(lines, module_name, indent="", leader=True, module_gap=" "):
             body.append(indent + ("# " + l if l != "" else "#"))
         else:
             body.append(indent + l)
+    if inline_closer and body and body[-1].strip() not in ("", "#"):
+        # the terminator shares the line with the last sentence (`# last words #]]`)
+        return "\n".join([first] + body[:-1] + [body[-1] + " #]]"])
     return "\n".join([first] + body + [indent + "#]]"])
 
 
@@ -242,7 +245,8 @@ def flat_tokens(its, lay):
     toks, kinds = [], []
     for it in its:
         if it[0] == "doc":
-            toks.append(render_doc(it[1], it[2], lay["doc_indent"], lay["leader"], lay.get("module_gap", " ")))
+            toks.append(render_doc(it[1], it[2], lay["doc_indent"], lay["leader"], lay.get("module_gap", " "),
+                                   lay.get("inline_closer", False)))
             kinds.append("doc" if it[2] is None else "moddoc")
         elif it[0] == "comment":
             toks.append(it[1])
